@@ -124,6 +124,8 @@ type SimNode struct {
 	// maintenance-mode session (C17): the next start of this node uses
 	// conf.MaintenanceMode / a store in maintenance mode; while the session lasts
 	// the node has no transport (nobody reaches it through the network)
+	// the node's database refused at least one write (injected transient error)
+	storeErrSeen bool
 	maintNext   bool
 	maintenance bool
 	ownScanned      int
@@ -178,6 +180,7 @@ type Cluster struct {
 	net *Network
 
 	stepNo  int
+	nesting int // > 0 while a composite step executes its sub-steps
 	steps   []*Step
 	start   time.Time
 	wakeups []func()
